@@ -1,7 +1,8 @@
 (* C17 — the unacknowledged-stanza queue is a FIFO with increasing sequence numbers.
    Only statements, closed by [exact], with their assumptions printed.
    Histories range over the six calls of the property's text and over DropLast (the seventh mutator of
-   the object, which Client.Send/SendRaw call when a write is refused).  Sequence numbers are unbounded
+   the object, which Client.Send/SendRaw call when a write is refused).  A Push that is refused (a Queueable
+   that is not an *UnAckedStz: QPushForeign) is part of the histories too: an error, the object unchanged.  Sequence numbers are unbounded
    integers here (Go: int, 2^63 - 1 stanzas on one session are out of reach). *)
 From Coq Require Import List ZArith NArith Bool Sorted.
 From XV Require Import Lib.Sx Model.Queue Proofs.QueueP.
@@ -61,10 +62,10 @@ Proof. exact droplast_undoes_push. Qed.
    and calls DropLast on an empty queue *)
 Example C17_example :
   q_run q_init [QPush [1%N]; QPush [2%N]; QPopN 5; QPush [3%N]; QPeekN (-1); QDropLast; QDropLast; QPush [4%N];
-                QPush [5%N]; QDropLast; QPop; QEmpty]
+                QPushForeign; QPush [5%N]; QDropLast; QPop; QEmpty]
   = [(QNil, [(1, [1%N])]); (QNil, [(1, [1%N]); (2, [2%N])]);
      (QMany [(1, [1%N]); (2, [2%N])], []); (QNil, [(3, [3%N])]);
-     (QNil, [(3, [3%N])]); (QNil, []); (QNil, []); (QNil, [(3, [4%N])]);
+     (QNil, [(3, [3%N])]); (QNil, []); (QNil, []); (QNil, [(3, [4%N])]); (QRefused, [(3, [4%N])]);
      (QNil, [(3, [4%N]); (4, [5%N])]); (QNil, [(3, [4%N])]); (QOne (3, [4%N]), []); (QBool true, [])].
 Proof. reflexivity. Qed.
 
